@@ -330,6 +330,14 @@ GARBAGE: Dict[str, Tuple[str, Any]] = {
     "delta-no-baseline": ("snapshot-5.delta.json",
                           (json.dumps(_DELTA_HDR, sort_keys=True) + "\n" + '{"_adds": {"x": 1}, "_dels": []}').encode()),
 }
+# a snapshot-shaped object (schema tags present, no version) whose GEL section was corrupted: edge weights that are not numbers
+_BAD_GEL = {"graph_schema_version": "v1.1", "schema_version": "v1",
+            "gel": {"nodes": {"ep1": {"id": "ep1"}, "ep2": {"id": "ep2"}},
+                    "edges": {"ep1→ep2": {"id": "ep1→ep2", "src": "ep1", "dst": "ep2", "rel": "coact", "weight": "heavy"},
+                              "ep1→ep4": {"id": "ep1→ep4", "src": "ep1", "dst": "ep4", "rel": "coact", "weight": None},
+                              "ep2→ep4": {"id": "ep2→ep4", "src": "ep2", "dst": "ep4", "rel": "coact", "weight": [0.5]}},
+                    "meta": {"schema": "v1.1", "merges": [], "splits": [], "promotions": [], "concept_nodes_count": 0, "edges_count": 3}}}
+GARBAGE["gel-bad-weights"] = ("snap_000115.json", json.dumps(_BAD_GEL, ensure_ascii=False).encode("utf-8"))
 GARBAGE_EXTRA: Dict[str, Tuple[str, Any]] = {
     "null": ("snap_000109.json", b"null"),
     "dangling-symlink": ("snap_000110.json", "SYMLINK"),
